@@ -1631,7 +1631,24 @@ func genExtraDefinition(r *hx.Rng) *gScen {
 	return g.sc
 }
 
+// a ring of 129..134 components closed by name through `any` points: creation nests as deep as the ring is long (a depth
+// limit, a recursion guard or a per-creation resource shows here; seed C02L)
+func genLongRing(r *hx.Rng) *gScen {
+	g := newBuilder(r)
+	n := 129 + r.Intn(6)
+	for i := 0; i < n; i++ {
+		g.addNode([]int{0, 1, 2, 8, 13}[r.Intn(5)], false)
+	}
+	for i := 0; i < n; i++ {
+		g.edgeByName(i, (i+1)%n, false)
+	}
+	return g.sc
+}
+
 func graphCorpus9(r *hx.Rng, w *hx.Writer, n int, tag string) {
+	if tag == "corpus" {
+		defer func() { emitGraph(genLongRing(r.Fork()), []string{tag, "longring"}, w) }()
+	}
 	for i := 0; i < n; i++ {
 		emitGraph(genLateNamed(r.Fork()), []string{tag, "latenamed"}, w)
 		emitGraph(genInPlaceFilter(r.Fork()), []string{tag, "inplacefilter"}, w)
